@@ -306,7 +306,8 @@ _ADD = {
     "C12": "After the first evaluation the volume setter doubles the size and the transform is evaluated again against the same "
            "exact record (F'(q/2) = 8 F(q)).",
     "C14": "Placements include edges leaning 4e-6 rad from the axes and a nanometre-sized copy.",
-    "C17": "spec/Factory.tla states the factory contract (the answer for a key is the shape the key defines, whatever was "
+    "C17": "spec/Family523.tla decides the 523 family exactly over Q(sqrt5) (plane set from the symmetry description with the "
+           "T1 theorem of icosahedral invariance; irrational corners, edges, interior and outside points). spec/Factory.tla states the factory contract (the answer for a key is the shape the key defines, whatever was "
            "requested before or done to earlier answers); all its Get/Mutate histories are replayed against every parametric family.",
     "C18": "The Get/Mutate histories of spec/Factory.tla are replayed against get_shape of every tabulated family and repository.",
     "C19": "The dispatch table distinguishes an absent, positive, zero and negative rounding radius, and rounded shapes are "
